@@ -5,6 +5,7 @@ import "fmt"
 // PlanCases decides which scenario families and how many cases a property check runs.
 func PlanCases(prop, tier string, seed int64) (cases []*Case, rule []string) {
 	g := NewGen(seed*1000003 + int64(propSalt(prop)))
+	g.FreeLen = prop != "C16" // C16 quantifies over inputs whose field length is the sum of the term frequencies
 	thorough := tier == "thorough"
 	n := func(q, t int) int {
 		if thorough {
@@ -35,6 +36,9 @@ func PlanCases(prop, tier string, seed int64) (cases []*Case, rule []string) {
 		add(n(20, 300), "the byte layout the builder writes (chunks, stored blocks, doc-value chunks) compared with the model's", func() *Case { return g.LayoutCase(false) })
 		add(n(25, 300), "postings looked up through reused lists and iterators (nothing the batch does not imply, also for absent terms)", func() *Case { return g.IterCase(8) })
 		add(n(40, 600), "operation scripts on one chunkedIntCoder (per term: Reset, SetChunkSize with varying chunk sizes and maximal document numbers, ascending Adds, Close, Write) compared with the coder model: chunk boundaries and decompressed contents", func() *Case { return g.UnitIntCoder() })
+		add(n(1, 6), "two segments with 300 fields each (field ids across the 127/128 and 255/256 boundaries, a location in every field): every dictionary opened, merged with a deletion, reloaded", func() *Case { return g.WideSegment() })
+		add(n(1, 6), "520-700 documents carrying the same field twice with the same term (seen twice as often as it has documents): dump, layout, iterator", func() *Case { return g.RepeatedFieldBig() })
+		add(n(2, 8), "a field whose name is the empty string: dumps, term lists that start with it, reloaded, merged", func() *Case { return g.EmptyFieldName() })
 	case "C02":
 		add(n(140, 2000), "build 1-4 batches, merge them (also merges of merges) with random deletions and dump the result", func() *Case { return g.MergeObs() })
 		add(n(12, 150), "segments with identical field lists merged without deletions (stored-field byte-copy path across 128-document blocks)", func() *Case { return g.CopyPathMerge() })
@@ -54,6 +58,8 @@ func PlanCases(prop, tier string, seed int64) (cases []*Case, rule []string) {
 		add(n(3, 12), "a term with 1,023 / 1,024 / 2,047 postings in a built input plus one 1-hit posting in a previously merged input whose document is (or is not) deleted in this merge: writer and reader must agree on the chunk size", func() *Case { return g.OneHitBoundary() })
 		add(n(1, 6), "2,050-2,250 documents, two doc-value fields of different sparsity (values only in the first documents / nothing in the middle chunk) written one after the other, built and merged", func() *Case { return g.SparseDVFields(false) })
 		add(n(1, 6), "1,200-1,400 documents, a doc-value field whose first 1,024-document chunk is empty, a doc-value field without any term, a merge deleting every document with a value; built, merged, reloaded from a file", func() *Case { return g.EmptyFirstDVChunk(false) })
+		add(n(1, 6), "two segments with 300 fields each (field ids across the 127/128 and 255/256 boundaries, a location in every field): every dictionary opened, merged with a deletion, reloaded", func() *Case { return g.WideSegment() })
+		add(n(3, 12), "a term without locations in two inputs of which only one posting survives, in the document that becomes number 0, while the last input that has the term loses all its postings for it", func() *Case { return g.LastInputDropped() })
 	case "C03":
 		add(n(140, 2000), "merge with random deletion sets (nil, empty, sparse, dense, everything) and report DocumentNumbers", func() *Case { return g.MergeObs() })
 		add(n(12, 150), "segments with identical field lists merged without deletions (byte-copy path across 128-document blocks): content at the reported numbers", func() *Case { return g.CopyPathMerge() })
@@ -61,6 +67,7 @@ func PlanCases(prop, tier string, seed int64) (cases []*Case, rule []string) {
 		add(n(5, 60), "a zero-document merge output that kept its field list, reloaded and merged in every position with a segment that has fewer fields", func() *Case { return g.ZeroDocFieldsMerge() })
 		add(n(1, 6), "three segments sharing the empty term whose cardinality only the sum of all three takes above 1,024: flat, left, right bracketing and single-segment merge dumped", func() *Case { return g.BigAssoc() })
 		add(n(5, 60), "a first input with every field and a later input (no deletions) with a strict subset of them, merged in several orders and as merges of merges: stored values must keep their field", func() *Case { return g.SubsetFieldsMerge() })
+		add(n(1, 6), "two segments with 300 fields each (field ids across the 127/128 and 255/256 boundaries, a location in every field): every dictionary opened, merged with a deletion, reloaded", func() *Case { return g.WideSegment() })
 	case "C04":
 		add(n(30, 400), "persist every segment of a random merge tree; the byte-exact loader models (footer, fields section, stored trailer and index, doc-value locations) run on the real bytes and must read what the loader reads", func() *Case { return g.FooterCase() })
 		add(n(110, 1500), "build or merge, dump, reload from memory and from a file, re-persist the loaded segment, dump each", func() *Case { return g.PersistLoad() })
@@ -73,6 +80,7 @@ func PlanCases(prop, tier string, seed int64) (cases []*Case, rule []string) {
 		add(n(2, 20), "merges whose term cardinalities sit around the 1,024-posting boundary of the adaptive chunk mode (writer and reader must derive the same chunk size)", func() *Case { return g.ChunkBoundaryMerge() })
 		add(n(8, 120), "twin segments (same shape and offsets, different term bytes, frequencies or stored values): lists, iterators, doc-value readers and the stored-field context carried from one to the other, then merged", func() *Case { return g.TwinCase() })
 		add(n(3, 12), "a term with 1,023 / 1,024 / 2,047 postings in a built input plus one 1-hit posting in a previously merged input whose document is (or is not) deleted in this merge: writer and reader must agree on the chunk size", func() *Case { return g.OneHitBoundary() })
+		add(n(3, 12), "a term without locations in two inputs of which only one posting survives, in the document that becomes number 0, while the last input that has the term loses all its postings for it", func() *Case { return g.LastInputDropped() })
 	case "C13":
 		add(n(150, 2500), "histories of 14 lookups reusing postings lists and iterators across terms, encodings and flags", func() *Case { return g.IterCase(14) })
 		add(n(40, 600), "doc-value readers reused across visit sequences", func() *Case { return g.DVCase(false) })
@@ -103,6 +111,8 @@ func PlanCases(prop, tier string, seed int64) (cases []*Case, rule []string) {
 	case "C08":
 		add(n(150, 2500), "dictionary enumeration with key ranges and prefix automata, Contains", func() *Case { return g.DictCase() })
 		add(n(25, 300), "PostingsList lookups of known, unknown-term and unknown-field entries through reused lists (an unknown term yields an empty list whatever was looked up before)", func() *Case { return g.IterCase(10) })
+		add(n(1, 6), "two segments with 300 fields each (field ids across the 127/128 and 255/256 boundaries, a location in every field): every dictionary opened, merged with a deletion, reloaded", func() *Case { return g.WideSegment() })
+		add(n(2, 8), "a field whose name is the empty string: dumps, term lists that start with it, reloaded, merged", func() *Case { return g.EmptyFieldName() })
 	case "C16":
 		add(n(120, 2000), "CollectionStats of every field of built, merged and reloaded segments", func() *Case { return g.StatsCase() })
 	case "C11":
@@ -116,6 +126,9 @@ func PlanCases(prop, tier string, seed int64) (cases []*Case, rule []string) {
 		add(n(3, 9), "a term with 1,023 / 1,024 / 2,047 postings in a built input plus one 1-hit posting in a previously merged input whose document is (or is not) deleted in this merge: writer and reader must agree on the chunk size", func() *Case { return g.OneHitBoundary() })
 	case "C18":
 		add(n(150, 2500), "DocsMatchingTerms over mixed, repeated, unknown-field and unknown-term lists", func() *Case { return g.DocsMatchingCase() })
+		add(n(1, 6), "two segments with 300 fields each (field ids across the 127/128 and 255/256 boundaries, a location in every field): every dictionary opened, merged with a deletion, reloaded", func() *Case { return g.WideSegment() })
+		add(n(3, 12), "a term without locations in two inputs of which only one posting survives, in the document that becomes number 0, while the last input that has the term loses all its postings for it", func() *Case { return g.LastInputDropped() })
+		add(n(2, 8), "a field whose name is the empty string: dumps, term lists that start with it, reloaded, merged", func() *Case { return g.EmptyFieldName() })
 	case "C10":
 		add(n(60, 800), "every segment of a random merge tree written by the current code, parsed by the frozen reference's structural dumper and compared with the layout the Coq model of the pinned format predicts", func() *Case { return g.LayoutCase(false) })
 		add(n(2, 20), "the same for a 1030-1430 document segment and its merge (adaptive chunk sizes, several stored blocks and doc-value chunks)", func() *Case { return g.LayoutCase(true) })
@@ -139,6 +152,7 @@ func PlanCases(prop, tier string, seed int64) (cases []*Case, rule []string) {
 		add(n(7, 14), "the smallest files ice writes (one document with only _id, with or without doc values or stored value, the empty term alone, no _id at all): built, merged, loaded from memory and from a file; the loader models run on the real bytes", func() *Case { return g.TinyShapes() })
 	case "C09":
 		add(n(20, 300), "sequential baseline: reads of built, merged and loaded segments compared with the model", func() *Case { return g.IterCase(6) })
+		add(n(1, 6), "two segments with 300 fields each (field ids across the 127/128 and 255/256 boundaries, a location in every field): every dictionary opened, merged with a deletion, reloaded", func() *Case { return g.WideSegment() })
 	default:
 		panic("no plan for property " + prop)
 	}
@@ -163,11 +177,11 @@ func NontrivialTags(prop string) map[string]bool {
 	}
 	switch prop {
 	case "C01":
-		set("multi_chunk", "repeated_field", "composite_loc", "coder_reuse")
+		set("multi_chunk", "repeated_field", "composite_loc", "coder_reuse", "wide_field_list")
 	case "C02":
-		set("multi_chunk", "merge_of_merge", "drops_and_survivors", "chunk_boundary", "twin_segments", "reencode_path", "zero_doc_input_with_fields", "exact_chunk_multiple", "coder_reuse", "several_inputs", "subset_field_lists", "one_hit_input")
+		set("multi_chunk", "merge_of_merge", "drops_and_survivors", "chunk_boundary", "twin_segments", "reencode_path", "zero_doc_input_with_fields", "exact_chunk_multiple", "coder_reuse", "several_inputs", "subset_field_lists", "one_hit_input", "wide_field_list")
 	case "C03":
-		set("drops_and_survivors", "zero_survivors", "copy_path", "reencode_path", "zero_doc_input_with_fields", "subset_field_lists")
+		set("drops_and_survivors", "zero_survivors", "copy_path", "reencode_path", "zero_doc_input_with_fields", "subset_field_lists", "wide_field_list")
 	case "C04":
 		set("merge", "empty_batch", "zero_survivors", "multi_chunk", "exact_chunk_multiple", "tiny_file")
 	case "C05":
